@@ -325,7 +325,9 @@ def echo_model(rng, key_cls):
     # structured typed inputs (TCK list and components DTOs on the way IN): a collection of strings and a component type
     parts.append('<itemDefinition name="tStrings" isCollection="true"><typeRef>string</typeRef></itemDefinition>')
     parts.append('<itemDefinition name="tRecord"><itemComponent name="amount"><typeRef>number</typeRef></itemComponent><itemComponent name="label"><typeRef>string</typeRef></itemComponent>'
-                 '<itemComponent name="tags"><typeRef>tStrings</typeRef></itemComponent><itemComponent name="day"><typeRef>date</typeRef></itemComponent><itemComponent name="flag"><typeRef>boolean</typeRef></itemComponent></itemDefinition>')
+                 '<itemComponent name="tags"><typeRef>tStrings</typeRef></itemComponent><itemComponent name="day"><typeRef>date</typeRef></itemComponent><itemComponent name="flag"><typeRef>boolean</typeRef></itemComponent>'
+                 '<itemComponent name="at"><typeRef>dateTime</typeRef></itemComponent><itemComponent name="clock"><typeRef>time</typeRef></itemComponent>'
+                 '<itemComponent name="span"><typeRef>dayTimeDuration</typeRef></itemComponent><itemComponent name="age"><typeRef>yearMonthDuration</typeRef></itemComponent></itemDefinition>')
     inputs += [("xl", "tStrings"), ("xr", "tRecord")]
     ids.update({"xl": "in_xl", "xr": "in_xr"})
     parts.append(decision("EchoXL", "xl", ["xl"]))
@@ -714,10 +716,11 @@ class Session:
             else:
                 cls = ncls
                 scls = rng.choice(BENIGN_STRING_CLASSES)
-        elif pick < 0.94:
+        elif pick < 0.92:
             # structured typed values sent IN as TCK list / components DTOs and echoed
             xs2 = [gen_string(rng, rng.choice(STRING_CLASSES if rng.random() < 0.5 else BENIGN_STRING_CLASSES)) for _ in range(rng.randint(0, 3))]
-            rec = {"amount": Decimal(gen_number(rng, ncls)), "label": gen_string(rng, scls), "tags": list(xs2), "day": ("xsd:date", rng.choice(["2021-03-04", "1999-12-31", "2020-02-29"])), "flag": rng.random() < 0.5}
+            rec = {"amount": Decimal(gen_number(rng, ncls)), "label": gen_string(rng, scls), "tags": list(xs2), "day": ("xsd:date", rng.choice(["2021-03-04", "1999-12-31", "2020-02-29"])), "flag": rng.random() < 0.5,
+                   "at": ("xsd:dateTime", rng.choice(TEMPORALS[2][5])), "clock": ("xsd:time", rng.choice(TEMPORALS[1][5])), "span": ("xsd:duration", rng.choice(TEMPORALS[3][5])), "age": ("xsd:duration", rng.choice(TEMPORALS[4][5]))}
             dec = rng.choice(["EchoXL", "EchoXR", "EchoXW"])
             want = xs2 if dec == "EchoXL" else rec if dec == "EchoXR" else {"list": xs2, "record": rec, "both": [rec, xs2]}
             r = rq("POST", "/tck/evaluate", {"model": "E", "invocable": dec, "input": [{"name": "xl", "value": tck_encode(xs2)}, {"name": "xr", "value": tck_encode(rec)}]})
